@@ -1653,6 +1653,10 @@ class Interp:
             if isinstance(a, SSet) and isinstance(b, SSet):
                 return SSet(a.items - b.items)
         if isinstance(op, ast.BitOr):
+            if isinstance(a, SSet) and isinstance(b, SOpaque) and b.cls is set:
+                tgt = a if inplace else SSet(a.items)
+                tgt.__dict__.setdefault("absorbed", list(getattr(a, "absorbed", []))).append(b)
+                return tgt
             if isinstance(a, SSet) and isinstance(b, SSet):
                 if inplace:
                     a.items |= b.items
